@@ -59,6 +59,32 @@ class Stats(object):
 
 STATS = Stats()
 
+# Cross-path cache of infeasibility facts.  A query "C ∧ e is unsat" (C = the sliced subset
+# of the path condition) stays unsat on any later path whose path condition contains C,
+# so it is recorded as  id(e) -> [frozenset(ids of C)]  and reused by a subset test.
+# ASTs are pinned (kept referenced) so that z3's hash-consing gives the same id to the same
+# structure on later paths.
+UNSAT_CACHE = {}
+_PIN = []
+CACHE_HITS = [0]
+
+
+def _cache_lookup(e, pcids):
+    for core_ids in UNSAT_CACHE.get(e.get_id(), ()):
+        if core_ids <= pcids:
+            CACHE_HITS[0] += 1
+            return True
+    return False
+
+
+def _cache_store(e, constraints):
+    if len(_PIN) > 400000:
+        UNSAT_CACHE.clear()
+        del _PIN[:]
+    _PIN.append(e)
+    _PIN.extend(constraints)
+    UNSAT_CACHE.setdefault(e.get_id(), []).append(frozenset(c.get_id() for c in constraints))
+
 
 def solve(constraints, want_model=True):
     """one non-incremental query with the qfbv tactic.  returns ('sat', model)|('unsat', None)"""
@@ -146,6 +172,7 @@ class Ctx(object):
         self.prefix = list(prefix)
         self.pos = 0
         self.pc = []
+        self.pcids = set()
         self.model = None
         self.parent_model = parent_model
         self.children = []  # (prefix, model at the decision)
@@ -157,6 +184,11 @@ class Ctx(object):
         self.known_exclusions = []  # z3 Bool exprs conjoined to obligation queries
         self.lits = {}  # AST id of a decided condition -> direction taken
         self._keep = []
+
+    def _pc_add(self, e):
+        self.pc.append(e)
+        if z.is_sym(e):
+            self.pcids.add(e.get_id())
 
     # ---------------------------------------------------------------- model handling
     def replaying(self):
@@ -179,7 +211,7 @@ class Ctx(object):
             return
         if c is False:
             raise Abort("assumption false")
-        self.pc.append(e)
+        self._pc_add(e)
         if self.model is not None and mval(self.model, e) is not True:
             self.model = None
 
@@ -230,12 +262,12 @@ class Ctx(object):
             if last:
                 # the flipped decision: its feasibility was established (and a model found) when
                 # it was queued, so no query and no wasted re-execution of infeasible flips
-                self.pc.append(lit)
+                self._pc_add(lit)
                 self.model = self.parent_model
                 if self.model is None or mval(self.model, lit) is not True:
                     raise Inconclusive("queued flip is not satisfied by its recorded model (engine error)")
             else:
-                self.pc.append(lit)
+                self._pc_add(lit)
                 if self.model is not None and mval(self.model, lit) is not True:
                     self.model = None  # a model obtained mid-replay (by an obligation) went stale
             return d
@@ -243,15 +275,20 @@ class Ctx(object):
         d = mval(m, cond)
         self.sigs = self.sigs[: self.pos] + [site]
         flip = z3.Not(cond) if d else cond
-        sl, _ = slice_constraints(self.pc, [flip])
-        r, m2 = solve(sl + [flip])
+        if _cache_lookup(flip, self.pcids):
+            r, m2 = "unsat", None
+        else:
+            sl, _ = slice_constraints(self.pc, [flip])
+            r, m2 = solve(sl + [flip])
+            if r == "unsat":
+                _cache_store(flip, sl)
         if r == "sat":
             self.children.append((self.prefix[: self.pos] + [not d], merge_models(m, m2), list(self.sigs)))
         else:
             STATS.infeasible += 1
         self.prefix.append(d)
         self.pos += 1
-        self.pc.append(cond if d else z3.Not(cond))
+        self._pc_add(cond if d else z3.Not(cond))
         return d
 
     # ---------------------------------------------------------------- obligations
@@ -268,9 +305,14 @@ class Ctx(object):
         if m is not None and all(mval(m, e) is True for e in extra):
             STATS.model_hits += 1
             return m
+        key = extra[0] if len(extra) == 1 else None
+        if key is not None and _cache_lookup(key, self.pcids):
+            return None
         sl, _ = slice_constraints(self.pc, extra)
         r, m2 = solve(sl + extra)
         if r == "unsat":
+            if key is not None:
+                _cache_store(key, sl)
             return None
         return merge_models(self.ensure_model(), m2)
 
@@ -299,6 +341,7 @@ def fresh_name(base):
 
 
 OPTS = {"concretize": False}
+NOT_FORCED = set()
 
 
 def try_concretize(e):
@@ -308,16 +351,45 @@ def try_concretize(e):
     downstream folds."""
     if not z.is_sym(e) or not OPTS["concretize"] or CTX is None:
         return e
+    k = e.get_id()
+    if k in NOT_FORCED:
+        return e  # found unforced on an earlier path: not trying again is always sound
     e2 = z.simp(e)
     if not z.is_sym(e2):
         return e2
     c = CTX
     m = c.ensure_model()
     v = mval(m, e2)
-    neq = z.Not(z.eq_i(e2, v))
+    neq = z.Not(z.eq_i(e, v))
     if c.check_sat([neq]) is None:
         return v
+    NOT_FORCED.add(k)
+    _PIN.append(e)
     return e
+
+
+def try_concretize_str(s):
+    """the Python str if the path condition forces the whole content of the symbolic string"""
+    from .values import SymStr
+
+    if not isinstance(s, SymStr) or CTX is None:
+        return s
+    if s.is_concrete():
+        return s.as_str()
+    if not OPTS["concretize"]:
+        return s
+    c = CTX
+    m = c.ensure_model()
+    v = s.concretize(m)
+    ne = z.Not(s.eq_expr(v))
+    if z.is_sym(ne) and ne.get_id() in NOT_FORCED:
+        return s
+    if c.check_sat([ne]) is None:
+        return v
+    if z.is_sym(ne):
+        NOT_FORCED.add(ne.get_id())
+        _PIN.append(ne)
+    return s
 
 
 WITNESSED = set()
